@@ -16,6 +16,8 @@ func universalByName(name string) *Database {
 		return universalB("B", poolB, 3, 0xB000)
 	case "B2":
 		return universalB("B2", poolB, 2, 0xC000)
+	case "K":
+		return universalK()
 	}
 	return nil
 }
@@ -101,6 +103,17 @@ func plan(cfg genConfig) (map[string]*Database, []caseSpec) {
 	}
 	for _, q := range c3 {
 		add("chain3", q, B, uw[1], universalLimit, "simple", "search")
+	}
+	// attribute names colliding with intrinsics / special-cased words, every scope spelling, every position
+	K := universalByName("K")
+	dbs[K.Name] = K
+	for _, kc := range keywordCases(cfg.thorough) {
+		mode := kc.mode
+		if mode == "" {
+			mode = "simple"
+		}
+		add("keyword", kc.q, K, uwAll[0], universalLimit, mode, kc.api)
+		cases[len(cases)-1].Key = kc.key
 	}
 	// all tags / all values (no query): only statement validity is judged
 	// (the planner's nil-script path is reached through PlanTagsV2(nil), not through text)
